@@ -91,7 +91,13 @@ def shrink_phase(rep, exe_impl, exe_model):
     if not f:
         f2, v2 = wk.run_cases(rep, exe_impl, exe_model, fcases, ["no_partial", "fault_reported"], what="abandoned copy")   # (empty directories after a failing mkdir are not C05's business: it speaks of the SOURCE's conditions)
         f, v = f or f2, v + v2
-    return f, v, len(cases) + len(fcases) + len(ncases)
+    # another process appends to a history file while its slice is copied (implementation only): see check_C08.grow_phase
+    ng = 0
+    if not f:
+        from check_C08 import grow_phase
+        f5, v5, ng = grow_phase(rep, exe_impl, exe_model)
+        f, v = f or f5, v + v5
+    return f, v, len(cases) + len(fcases) + len(ncases) + ng
 
 
 def gen_policy_change_case(rng):
